@@ -53,6 +53,7 @@ pub fn passes(tier: &str) -> Vec<Pass> {
         mk("wide/batch-half-flushed", d.clone(), alpha_wide(), "batch_half_flushed", if q { 2 } else { 4 }, 1, if q { 3.0 } else { 120.0 }, Probe::Full),
         mk("wide/two-sealed-journals", d.clone(), alpha_wide(), "two_sealed_journals", if q { 2 } else { 4 }, 2, if q { 4.0 } else { 150.0 }, Probe::Full),
         mk("wide/two-sealed-journals/small-journal-limit", Cfg { maxj: true, ..d.clone() }, alpha_wide(), "two_sealed_journals", if q { 2 } else { 4 }, 1, if q { 3.0 } else { 150.0 }, Probe::Full),
+        mk("wide/journals-9-and-10", d.clone(), alpha_wide(), "journals_9_and_10", if q { 1 } else { 3 }, 1, if q { 3.0 } else { 150.0 }, Probe::Full),
         mk("wide/sealed-journal-half-flushed", d.clone(), alpha_wide(), "sealed_journal_x_half_flushed", if q { 2 } else { 4 }, 1, if q { 3.0 } else { 150.0 }, Probe::Full),
         mk("wide/sealed-journal-all-record-kinds", d.clone(), alpha_wide(), "sealed_journal_all_kinds", if q { 2 } else { 4 }, 1, if q { 3.0 } else { 150.0 }, Probe::Full),
         mk("wide/single-writer-tx", Cfg { kind: DbKind::SingleWriter, ..d.clone() }, alpha_wide(), "", if q { 2 } else { 3 }, 2, if q { 3.0 } else { 60.0 }, Probe::Lite),
